@@ -157,7 +157,7 @@ func (e *engine) keyFileCase(c fsCase, useLog bool, via string) {
 }
 
 func (e *engine) runC39() {
-	e.rep.Rule = "key files in real temporary directories: missing (writable directory, dangling symlink, missing parent directory), stat failures that are not 'does not exist' (ENOTDIR, ELOOP, ENAMETOOLONG), directory at the path, empty / white-space / garbage / truncated files, PEM of the wrong type, right type with a malformed body, valid keys (64- and 96-byte forms, CRLF, leading text, trailing data, second block); each with and without a logger; distinct = distinct op line"
+	e.rep.Rule = "key files in real temporary directories: missing (writable directory, dangling symlink, missing parent directory), stat failures that are not 'does not exist' (ENOTDIR, ELOOP, ENAMETOOLONG), directory at the path, empty / white-space / garbage / truncated files, PEM of the wrong type, right type with a malformed body, valid keys (64- and 96-byte forms, CRLF, leading text, trailing data, second block); each with and without a logger; SEQUENCES of file states on one path in one process (contents replaced in place / by re-creation / by rename with the size and the modification time kept: another key, garbage, zeros, padded public-key PEM, removed, …; also through hard and symbolic links), each load judged on the CURRENT contents, through OpenOrWritePrivKey, pipe -k and util read-private; distinct = distinct op line"
 	k := e.newKey()
 	good := pem.EncodeToMemory(&pem.Block{Type: "LIBP2P PRIVATE KEY", Bytes: keyMsg(1, k.priv)})
 	file := func(class string, mk func() []byte) fsCase {
@@ -278,6 +278,7 @@ func (e *engine) runC39() {
 			}
 		}
 	}
+	e.runC39Sequences() // wave 4: history independence over file states on ONE path (c39w4.go)
 	e.runC39Wave3(k)
 	e.runC39Callers(cases, k)
 }
